@@ -14,11 +14,12 @@ def run(replay=None):
     ck = Check(PID)
     thorough = tier() == 'thorough'
     ck.rule = ('trace = seeded history of one wallet (8 wallet kinds: HD / single-key / 2-of-2 multisig x legacy / segwit / p2sh-segwit); '
-               'case = one send_to / send / sweep / bumpfee call judged by TLC against the ledger state reached; class = (wallet kind, '
+               'case = one send_to / send / send with an explicit input list (also listing spent outputs or one outpoint twice) / sweep / bumpfee call judged by TLC against the ledger state reached; class = (wallet kind, '
                'call kind, created or refused, fee mode, number of inputs, number of change outputs)')
     ck.assumptions = ['network bitcoinlib_test (offline provider); amounts below 2^27 so that sums stay in TLC integer range',
                       'an output to any address of the same wallet counts as change', 'fee-rate limits checked on the final size with 3% tolerance',
-                      'bumpfee is exercised on not yet broadcast transactions only']
+                      'bumpfee is exercised on not yet broadcast transactions only',
+                      'min_confirms does not apply to an explicit input list (documented); every other rule does']
     ck.model(common.model_check('MC_WalletLedger', 'MC_WalletLedger_thorough.cfg' if thorough else 'MC_WalletLedger.cfg', expect_actions=['Next']))
     if replay:
         jobs = [tuple(replay['case']['job'][:1]) + (tuple(replay['case']['job'][1]),) + tuple(replay['case']['job'][2:])]
